@@ -488,6 +488,9 @@ func init() {
 			n = f.n
 		}
 		for i := 0; i < n; i++ {
+			if rep.outOfTime() {
+				break
+			}
 			hr := rand.New(rand.NewSource(r.Int63()))
 			cfg := gen.PickConfig(hr)
 			prof := gen.DefaultProfile()
